@@ -439,10 +439,15 @@ def check_b2b(rep, fb, rule_prefix="b2b"):
         if b.get("in_trait") and b["name"] in ("encrypt_b2b", "decrypt_b2b"):
             found += 1
             inst = "cts::" + b["path"]
-            names = [fn["name"] for i, t, fn in G.calls(b)]
-            # structure: new -> map_err -> and_then(closure calling *_inout); no other call that can write
-            ok = names[:1] == ["new"] and set(names) <= {"new", "map_err", "and_then"}
-            rep.ob(rule_prefix + ".through-new", inst, ok, "calls: %s (the *_inout call lives in the and_then closure, reached only with Ok)" % names, loc_of(b))
+            cl = list(G.calls(b))
+            names = [fn["name"] for i, t, fn in cl]
+            # structure: InOutBuf::new is called first and every other call (the Result plumbing, the
+            # *_inout call or the combinator receiving the closure that makes it) is dominated by it;
+            # what those calls do is decided by the interpreted rules b2b.reject / b2b.accept
+            dom = G.dominators(b)
+            news = [i for i, t, fn in cl if fn["name"] == "new" and "InOutBuf" in fn.get("path", "")]
+            ok = len(news) == 1 and all(i == news[0] or news[0] in dom.get(i, ()) for i, t, fn in cl)
+            rep.ob(rule_prefix + ".through-new", inst, ok, "calls: %s (every call is dominated by the single InOutBuf::new)" % names, loc_of(b))
             # the closures
             for c in cr.bodies:
                 if c["kind"] == "closure" and c["path"].startswith(b["path"]):
